@@ -1,6 +1,8 @@
 pub mod configsim;
 pub mod crashsim;
+pub mod gitsim;
 pub mod hashsim;
+pub mod pushsim;
 pub mod reposim;
 pub mod tablesim;
 pub mod tasksim;
@@ -9,7 +11,7 @@ pub mod wcsim;
 use crate::core::runner::Engine;
 
 pub fn all() -> Vec<Box<dyn Engine>> {
-    vec![Box::new(tablesim::TableSim), Box::new(reposim::RepoSim), Box::new(wcsim::WcSim), Box::new(tasksim::TaskSim), Box::new(hashsim::HashSim), Box::new(configsim::ConfigSim)]
+    vec![Box::new(tablesim::TableSim), Box::new(reposim::RepoSim), Box::new(wcsim::WcSim), Box::new(tasksim::TaskSim), Box::new(hashsim::HashSim), Box::new(configsim::ConfigSim), Box::new(gitsim::GitSim), Box::new(pushsim::PushSim)]
 }
 
 pub fn by_name(name: &str) -> Option<Box<dyn Engine>> {
